@@ -352,7 +352,11 @@ func (cl *Client) ClearInflights() {
 func (cl *Client) ClearExpiredInflights(now, maximumExpiry int64) []uint16 {
 	deleted := []uint16{}
 	for _, tk := range cl.State.Inflight.GetAll(false) {
-		expired := tk.ProtocolVersion == 5 && tk.Expiry > 0 && tk.Expiry < now // [MQTT-3.3.2-5]
+		expiry := tk.Expiry
+		if expiry < -1 {
+			expiry = -expiry // deferred message: the marker keeps the expiry time
+		}
+		expired := tk.ProtocolVersion == 5 && expiry > 0 && expiry < now // [MQTT-3.3.2-5]
 
 		// If the maximum message expiry interval is set (greater than 0), and the message
 		// retention period exceeds the maximum expiry, the message will be forcibly removed.
